@@ -3,6 +3,7 @@ package server
 // Shared harness scaffolding for package server (overlay-only; never on disk in /repo).
 
 import (
+	"github.com/DrmagicE/gmqtt/persistence/subscription"
 	"net"
 	"time"
 
@@ -116,3 +117,12 @@ func zzV5Connect(id string) *packets.Connect {
 func zzV3Connect(id string) *packets.Connect {
 	return &packets.Connect{Version: packets.Version311, FixHeader: &packets.FixHeader{PacketType: packets.CONNECT}, ProtocolName: []byte("MQTT"), ProtocolLevel: 4, ClientID: []byte(id)}
 }
+
+type subscriptionIterationOptions = subscription.IterationOptions
+
+// zzUnack is a trivial unack.Store (never reports a duplicate).
+type zzUnack struct{}
+
+func (*zzUnack) Init(bool) error                         { return nil }
+func (*zzUnack) Set(packets.PacketID) (bool, error)      { return false, nil }
+func (*zzUnack) Remove(packets.PacketID) error           { return nil }
